@@ -243,14 +243,13 @@ std::string Token::ToString(const Syntax syntax) const {
     default: {
       return Str(id, syntax);
     }
-    case TokenID::ID_LOCAL: {
-      return ConvertID(data.ToText(), syntax);
-    }
+    case TokenID::ID_LOCAL:
     case TokenID::ID_GLOBAL:
     case TokenID::ID_FUNCTION:
     case TokenID::ID_PREDICATE:
     case TokenID::ID_RADICAL: {
-      return data.ToText();
+      // Note: MATH lexer accepts greek letters in any identifier, ASCII text should remain ASCII
+      return ConvertID(data.ToText(), syntax);
     }
     case TokenID::LIT_INTEGER: {
       return std::to_string(data.ToInt());
